@@ -852,18 +852,20 @@ class Compiler(object):
                     type_name,
                     module_name))
 
+            self.types_backtrace_pop()
+
             # A recursive reference (the body of an alias of a type
             # being compiled) keeps the name and the module of the
-            # type it refers to.
+            # type it refers to. It stands for this occurrence only,
+            # as tag, OPTIONAL and DEFAULT are set on it in place, so
+            # it is not shared with other members through the cache.
             if not isinstance(compiled, Recursive):
                 compiled.type_name = type_name
                 compiled.module_name = module_name
-
-            self.types_backtrace_pop()
-            self.set_compiled_type(name,
-                                   type_name,
-                                   module_name,
-                                   compiled)
+                self.set_compiled_type(name,
+                                       type_name,
+                                       module_name,
+                                       compiled)
 
         return compiled
 
